@@ -212,7 +212,8 @@ func (t *Transition) statesToSet(mutType MutationType, states S) S {
 		return statesToSet
 
 	case MutationSet:
-		statesToSet := states
+		// the resolver appends to this list, the caller keeps [states]
+		statesToSet := slices.Clone(states)
 		if t.isLogSteps() {
 			t.addSteps(newSteps("", StatesDiff(statesToSet, m.activeStates),
 				StepSet, 0)...)
